@@ -528,7 +528,7 @@ impl Mp4Track {
                     }
                 }
             }
-            let start_offset = (samples_before * default_sample_duration) as u64;
+            let start_offset = samples_before as u64 * default_sample_duration as u64;
             Ok((base_start_time + start_offset, default_sample_duration))
         } else {
             let stts = &self.trak.mdia.minf.stbl.stts;
